@@ -381,6 +381,108 @@ binop!(Sub, sub, |a: &N, b: &N| a
     .checked_sub(b)
     .expect("BigNat subtraction underflow"));
 
+
+/// Signed big integer (sign + magnitude) for ledger differences: balances reach u128::MAX,
+/// so neither i128 casts nor u128 subtraction are safe.
+#[derive(Clone, PartialEq, Eq, Debug)]
+pub struct Z {
+    pub neg: bool,
+    pub mag: N,
+}
+
+impl Z {
+    pub fn zero() -> Z {
+        Z { neg: false, mag: N::zero() }
+    }
+    fn norm(neg: bool, mag: N) -> Z {
+        let neg = neg && !mag.is_zero();
+        Z { neg, mag }
+    }
+    /// a - b
+    pub fn diff(a: u128, b: u128) -> Z {
+        if a >= b {
+            Z::norm(false, N::from_u128(a - b))
+        } else {
+            Z::norm(true, N::from_u128(b - a))
+        }
+    }
+    pub fn is_zero(&self) -> bool {
+        self.mag.is_zero()
+    }
+    pub fn is_neg(&self) -> bool {
+        self.neg
+    }
+    pub fn add_z(&self, o: &Z) -> Z {
+        if self.neg == o.neg {
+            Z::norm(self.neg, &self.mag + &o.mag)
+        } else if self.mag >= o.mag {
+            Z::norm(self.neg, &self.mag - &o.mag)
+        } else {
+            Z::norm(o.neg, &o.mag - &self.mag)
+        }
+    }
+    pub fn negated(&self) -> Z {
+        Z::norm(!self.neg, self.mag.clone())
+    }
+    /// magnitude as u128 when non-negative and it fits
+    pub fn to_u128(&self) -> Option<u128> {
+        if self.neg {
+            None
+        } else {
+            self.mag.to_u128()
+        }
+    }
+}
+
+pub fn z(v: u128) -> Z {
+    Z { neg: false, mag: N::from_u128(v) }
+}
+
+impl std::ops::Neg for Z {
+    type Output = Z;
+    fn neg(self) -> Z {
+        self.negated()
+    }
+}
+impl std::ops::Add for Z {
+    type Output = Z;
+    fn add(self, o: Z) -> Z {
+        self.add_z(&o)
+    }
+}
+impl std::ops::Sub for Z {
+    type Output = Z;
+    fn sub(self, o: Z) -> Z {
+        self.add_z(&o.negated())
+    }
+}
+impl std::ops::AddAssign for Z {
+    fn add_assign(&mut self, o: Z) {
+        *self = self.add_z(&o);
+    }
+}
+impl PartialOrd for Z {
+    fn partial_cmp(&self, o: &Z) -> Option<Ordering> {
+        Some(match (self.neg, o.neg) {
+            (false, true) => Ordering::Greater,
+            (true, false) => Ordering::Less,
+            (false, false) => self.mag.cmp(&o.mag),
+            (true, true) => o.mag.cmp(&self.mag),
+        })
+    }
+}
+impl fmt::Display for Z {
+    fn fmt(&self, f: &mut fmt::Formatter) -> fmt::Result {
+        if self.neg {
+            write!(f, "-{}", self.mag)
+        } else if f.sign_plus() {
+            write!(f, "+{}", self.mag)
+        } else {
+            write!(f, "{}", self.mag)
+        }
+    }
+}
+
 pub fn n(v: u128) -> N {
     N::from_u128(v)
 }
